@@ -845,6 +845,60 @@ def _cumulative(op):
     return h
 
 
+def _concrete_elems(v, st):
+    """the elements of a 1-D array of small concrete length, or None."""
+    A = _arr(v, st) if isinstance(v, LocalArr) else as_arr(v) if isinstance(v, (Arr, ArrParam)) else (list_to_arr(v) if isinstance(v, ListVal) else None)
+    if A is None or is_opaque(A) or A.ndim != 1: return None
+    k_ = A.axes[0][1].as_int()
+    if k_ is None or k_ > 64: return None
+    out = [arr_index(A, X.const(i)) for i in range(k_)]
+    return out if all(to_x(e) is not None and not isinstance(e, PV) for e in out) else None
+
+
+def _from_elems(elems):
+    kv = fresh("k"); body = None
+    for i in range(len(elems) - 1, -1, -1):
+        body = elems[i] if body is None else mk_pv(lm._cond_eq(X.var(kv), X.const(i), f"{kv}=={i}"), elems[i], body)
+    return Arr([(kv, X.const(len(elems)))], body if body is not None else X.const(0))
+
+
+def h_diff(I, a, k, st, n):
+    e = _concrete_elems(a[0], st)
+    if e is None or len(a) > 1 or k: return Opaque("np.diff (only first differences of a short concrete vector are modelled)")
+    return _from_elems([to_x(e[i + 1]) - to_x(e[i]) for i in range(len(e) - 1)])
+
+
+def h_gradient(I, a, k, st, n):
+    """np.gradient(f) with unit spacing: central differences inside, one-sided first differences at the two ends."""
+    e = _concrete_elems(a[0], st)
+    if e is None or len(a) > 1 or k or len(e) < 2: return Opaque("np.gradient (only a short concrete vector with unit spacing is modelled)")
+    x = [to_x(v) for v in e]; m = len(x)
+    g = [x[1] - x[0]] + [(x[i + 1] - x[i - 1]) * X.const(Fr(1, 2)) for i in range(1, m - 1)] + [x[m - 1] - x[m - 2]]
+    return _from_elems(g)
+
+
+def h_trapz(I, a, k, st, n):
+    """np.trapezoid / np.trapz (y, x): sum of (y[i] + y[i+1])/2 * (x[i+1] - x[i])."""
+    y = _concrete_elems(a[0], st)
+    xs = a[1] if len(a) > 1 else k.get("x")
+    x = _concrete_elems(xs, st) if xs is not None else None
+    if y is None or (xs is not None and x is None) or k.get("dx") is not None or k.get("axis") is not None: return Opaque("np.trapezoid (only short concrete vectors are modelled)")
+    tot = X.const(0)
+    for i in range(len(y) - 1):
+        dx = (to_x(x[i + 1]) - to_x(x[i])) if x is not None else X.const(1)
+        tot = tot + (to_x(y[i]) + to_x(y[i + 1])) * X.const(Fr(1, 2)) * dx
+    return tot
+
+
+def h_dot1(I, a, k, st, n):
+    u, v = _concrete_elems(a[0], st), _concrete_elems(a[1], st) if len(a) > 1 else None
+    if u is None or v is None: return NotImplemented
+    if len(u) != len(v): return Mismatch(f"np.dot of vectors of length {len(u)} and {len(v)}")
+    tot = X.const(0)
+    for p_, q_ in zip(u, v): tot = tot + to_x(p_) * to_x(q_)
+    return tot
+
+
 def h_squeeze(I, a, k, st, n):
     """np.squeeze drops every axis of length 1 (an axis of symbolic length is a generic one and stays)."""
     o = a[0]
@@ -989,6 +1043,9 @@ _reg("numpy.pad", h_pad)
 _reg("numpy.correlate", h_correlate)
 _reg("numpy.allclose", h_allclose)
 _reg("numpy.squeeze", h_squeeze)
+_reg("numpy.diff", h_diff)
+_reg("numpy.gradient", h_gradient)
+_reg("numpy.trapezoid numpy.trapz scipy.integrate.trapezoid", h_trapz)
 _reg("numpy.cumprod", _cumulative("*"))
 _reg("numpy.cumsum", _cumulative("+"))
 _reg("numpy.linalg.norm", h_norm)
